@@ -437,7 +437,7 @@ func TestCheck(t *testing.T) {
 		c.SetExhaustive("vectors_all_sizes", false)
 
 		// full writer output for texts forced into every size
-		c.Rapid("writer_texts", c.N(600, 6000), func(t *rapid.T) {
+		c.Rapid("writer_texts", c.N(600, 30000), func(t *rapid.T) {
 			si := rapid.IntRange(0, len(dmref.Sizes)-1).Draw(t, "size")
 			a := dmref.Sizes[si]
 			n := rapid.IntRange(1, 2*a.Data).Draw(t, "n")
@@ -470,7 +470,7 @@ func TestCheck(t *testing.T) {
 		c.SetExhaustive("writer_padding_all_sizes", true)
 
 		// Base-256 segments in real streams
-		c.Rapid("base256_streams", c.N(1500, 10000), func(t *rapid.T) {
+		c.Rapid("base256_streams", c.N(1500, 60000), func(t *rapid.T) {
 			cs := B256Case{N: rapid.IntRange(1, 40).Draw(t, "n"), Seed: rapid.Uint64().Draw(t, "seed"), Pre: rapid.SampledFrom([]string{"", "A", "12", "ab1", "HELLO"}).Draw(t, "pre")}
 			if rapid.IntRange(0, 5).Draw(t, "long") == 0 {
 				cs.N = rapid.IntRange(200, 900).Draw(t, "nlong")
